@@ -315,7 +315,10 @@ PROPS = {
         "translators": ["translator_c02"],
         "modules": ["S2.Crossing", "S2.Crosser", "S2.Pred", "S2.Exact", "S2.STUV", "S2.F64", "S2.BigF"],
         "rule": "quadruples (a,b,c,d) of unit vectors: fixed edge AB general / tiny (separations 2^-k down to subnormal) / a few ulps / "
-                "long (near 180 degrees, nearly antipodal) / degenerate / in a coordinate plane / 45-135 degrees; C and D chosen relative to AB: "
+                "long (near 180 degrees, nearly antipodal) / nearly antipodal along a Pythagorean direction with an EXACTLY cancelling float "
+                "(a+b)x(b-a) although a x b != 0 (finding D48; 10 integer directions, axis permutations, sign flips, C and D across the arc "
+                "at its midpoint / anywhere / next to A or B, at distances 0.1 .. 2^-53) / degenerate / in a coordinate plane / 45-135 degrees; "
+                "C and D chosen relative to AB: "
                 "shared vertices (1-4), revisited, on the great circle of AB +- ulps, inside AB (T junctions, overlapping collinear edges), "
                 "few ulps from an endpoint, antipodes, just outside an endpoint (outward-tangent test boundary), same coordinate plane "
                 "(exactly collinear), tangent-plane lattice at 2^-k, straddling AB symmetrically, zero coordinates with flipped sign bits. "
@@ -336,8 +339,9 @@ PROPS = {
             "model on exact integer vectors in S2Proofs.Properties.C02",
             "hook s2/verif_export_c03.go: VerifCrosserState (private fields of EdgeCrosser), VerifC03MaxError (a COPY of the local "
             "expression maxError of crossingSign; the real value is only tested behaviourally)",
-            "this Go port does not normalise PointCross(a,b) before building the tangents (|norm| up to 2), unlike the C++ original whose "
-            "error bound it quotes; no failing input found (2.4e8 targeted trials), modelled as is",
+            "finding D48 (repaired): NewEdgeCrosser built the tangents from the un-normalised PointCross(a,b), which is an arbitrary "
+            "orthogonal vector when the float (a+b)x(b-a) cancels exactly for nearly antipodal a, b; the repaired code normalises "
+            "(a+b)x(b-a) and leaves the tangents zero below |.|^2 = 2^-80 (corpus/C03/fixed_D48_antipodal_tangent.txt)",
         ],
         "assumptions": [
             "points are unit length within the library's tolerance; no edge has exactly antipodal endpoints (then NewEdgeCrosser uses an "
